@@ -142,6 +142,13 @@ func (t *Transformer) maybeRecursivelyMangle(mangler Mangler, state *transformMa
 			ft = ft.Elem()
 		}
 
+		// nor into elements that are TextUnmarshalers themselves (e.g.
+		// []time.Time): rebuilding them would strip their methods and
+		// their unexported state.
+		if ft.Implements(textMReflectType) || reflect.PointerTo(ft).Implements(textMReflectType) {
+			continue
+		}
+
 		fieldTransformer := Transformer{
 			manglers: []Mangler{mangler},
 			mState:   nil,
